@@ -135,6 +135,41 @@ func TestNeverPanics(t *testing.T) {
 		}
 	}
 	Check(nil, Expect{})
+	// cyclic type tables must not send the structural comparisons into unbounded recursion
+	top := parseTree(getBitcode(b))
+	mod := moduleOf(top)
+	tb := mod.blocks(blkTypeNew)[0]
+	n := 0
+	for _, r := range tb.records() {
+		if r.Code != 1 && r.Code != 19 {
+			n++
+		}
+	}
+	k := 0
+	for _, r := range tb.records() {
+		switch r.Code {
+		case 8:
+			r.Ops[0] = uint64((k + 1) % n)
+		case 12, 11:
+			r.Ops[1] = uint64((k + 1) % n)
+		case 18, 20:
+			for i := 1; i < len(r.Ops); i++ {
+				r.Ops[i] = uint64((k + i) % n)
+			}
+		}
+		if r.Code != 1 && r.Code != 19 {
+			k++
+		}
+	}
+	r := Check(withBitcode(b, writeBitcode(top)), baseExpect)
+	if len(r.Findings) == 0 || r.Fired["internal.panic"] != 0 {
+		t.Errorf("cyclic types: %s", rulesOf(r))
+	}
+	// DECLAREBLOCKS far larger than the body
+	top = parseTree(getBitcode(b))
+	fb := moduleOf(top).blocks(blkFunction)[0]
+	fb.records()[0].Ops[0] = 1 << 40
+	wantRule(t, Check(withBitcode(b, writeBitcode(top)), baseExpect), "func.terminators")
 }
 
 var _ = binary.LittleEndian
